@@ -105,6 +105,18 @@ CHECKS = {
             "bounded-exhaustive enumeration of SVT-encoded streams (configuration deviation bound 1 x sizes x contents x lengths); differential oracle: SVT decoder (both pipeline bit depths) vs libaom and dav1d, picture by picture",
             "Every stream of the enumeration is decoded by the SVT decoder with is_16bit_pipeline 0 and 1 and by both reference decoders; picture count, order and every sample must agree, film grain included.",
             "only streams the SVT encoder can produce (no independent encoder was bound): coding tools it never emits are not exercised; single-threaded decoding (C09 covers threads)", "4/C08"),
+    "C21": ("encdrv (asan+rel) + s2_c21tight", "exploration",
+            "exhaustive cross product of caller-side picture representations (stride, padding bytes, buffer lifetime) x size x bit depth x tool class; differential oracle against the stride=width/kept-buffer session plus AddressSanitizer on freed and tightly allocated planes",
+            "Every (size, depth, content, tf/overlay class) is encoded for all stride_extra x padbyte x lifetime combinations; packets and recon must be byte-identical to the group's baseline of the same build, the freed-buffer third and the tight-plane sessions run under ASan and must produce no report.",
+            "keep/scribble variants run in the release build (late reads show as different output), free variants in ASan; 6 pictures, hl 2, lp 1, unpacked 10-bit only", "4/C21"),
+    "C22": ("s2_relhint (textual extraction) + encdrv + refdec + obu", "exploration",
+            "exhaustive evaluation of every get_relative_dist copy over its whole domain against the AV1 formula; exhaustive cross product of stream lengths around 128k and 2048k x GOP shapes with independent decoders and bitstream order hints as oracle; length scan x hierarchical levels under the controlled scheduler",
+            "All 5 definitions x order_hint_bits 1..8 x all (a,b) are compared with the specification; every listed length x shape is encoded, decoded by libaom and dav1d, compared with recon, checked for packet order/pts/EOS and for order_hint = position mod 128; hl 0..5 x {33..161} pictures run with deadlock detection.",
+            "lengths <= 8192, 64x64 preset 8 lp 1; copies are discovered by regex at check time (a missing expected copy is a violation)", "4/C22"),
+    "C26": ("encdrv + refdec + s2_sse", "exploration",
+            "exhaustive cross product size x content x preset x tf_level x overlays x hierarchical levels x qp with stat_report=1; independent oracle: SSE between regenerated source and libaom-decoded picture per packet",
+            "Every packet of every session carries luma/cb/cr SSE equal to the exact sum over the visible area truncated to 32 bits, including packets that re-display an earlier coded frame; one session exceeds 2^32.",
+            "8-bit 4:2:0, 9 pictures, film grain/superres off; ssim fields unchecked; 'screen' is the only content on which temporal filtering alters the source", "4/C26"),
 }
 
 NOT_YET = {}
